@@ -669,6 +669,112 @@ RULE = ("breadth-first over canonical states of a real POXCore: every history of
         "Configurations: %s")
 
 
+# ---------------------------------------------------------------------------------------
+# component names that collide with attributes of the core object itself
+# ---------------------------------------------------------------------------------------
+COLLIDING = ("version", "scheduler", "debug", "running", "components", "starting_up", "log")
+
+def collision_part (rep):
+  """A waiter naming a component whose name is also an attribute of POXCore ("version", "scheduler", ...) must
+  still wait for that component to be REGISTERED (every name x declaration form x order)."""
+  P = _import()
+  for name in COLLIDING:
+    for order in ("declare-first", "register-first"):
+      for form in ("str", "list", "tuple", "set"):
+        core = P.core.POXCore(threaded_selecthub=False, handle_signals=False)
+        P.core.core = core
+        calls = []
+        cb = lambda: calls.append(sorted(core.components))
+        deps = dict(str=name, list=[name], tuple=(name,), set=set([name]))[form]
+        obj = object()
+        bad = None
+        try:
+          if order == "declare-first":
+            core.call_when_ready(cb, deps)
+            if calls: bad = ("collision:fired-before-registered", "call_when_ready(cb, %r) ran the callback although no component %r is registered (the name is also an attribute of the core object)" % (deps, name))
+            core.register(name, obj)
+            if not bad and len(calls) != 1: bad = ("collision:not-fired-on-register", "register(%r) ran the waiting callback %d times" % (name, len(calls)))
+          else:
+            core.register(name, obj)
+            core.call_when_ready(cb, deps)
+            if len(calls) != 1: bad = ("collision:not-fired-at-declaration", "callback ran %d times although %r was already registered" % (len(calls), name))
+          if not bad and calls and name not in calls[-1]:
+            bad = ("collision:fired-without-component", "callback ran while %r was not among the registered components %r" % (name, calls[-1]))
+        except Exception as e:
+          bad = ("collision:raises:%s" % type(e).__name__, "%s with component name %r: %r" % (order, name, e))
+        rep.evaluations += 1; rep.transitions += 2
+        rep.outcome(("collision", name, order, form, bad and bad[0]))
+        if bad:
+          rep.violation("%s:%s" % (PID, bad[0]), bad[1] + " [%s, deps as %s]" % (order, form), dict(collision=dict(name=name, order=order, form=form)))
+
+
+# ---------------------------------------------------------------------------------------
+# E-thr: two threads call quit() concurrently (DESIGN.md C08, thorough scenario; cheap enough for quick)
+# ---------------------------------------------------------------------------------------
+def quit_race_run (ctx):
+  import gc
+  from mc import thr
+  P = _import()
+  log = []
+  st = dict(done=0)
+  S = thr.Sched(ctx, trace_files=("pox/core.py",), trace_funcs=("POXCore.quit", "POXCore._quit"),
+                pending=lambda: st["done"] < 2, max_points=4000)
+  core = P.core.POXCore(threaded_selecthub=False, handle_signals=False)
+  for attr, val in list(vars(core).items()):
+    # real locks held by the core (e.g. the one around quit) must be controlled ones, or a thread blocked on
+    # one would block the explorer itself
+    if type(val).__name__ == "lock": setattr(core, attr, thr.CLock(S, attr))
+  P.core.core = core
+  core.starting_up = False                     # the system is up
+  sch = core.scheduler
+  def squit (): sch._hasQuit = True; sch._allDone = True
+  sch.quit = squit
+  core.callLater = lambda f, *a, **k: f(*a, **k)          # the (absent) scheduler thread runs it at once
+  class Cond (object):
+    def __init__ (self): self.l = thr.CLock(S, "quit_condition")
+    def acquire (self): return self.l.acquire()
+    def release (self): return self.l.release()
+    def notifyAll (self): pass
+    notify_all = notifyAll
+  core.quit_condition = Cond()
+  real_time = P.core.time
+  P.core.time = thr.CTime(S)
+  core.addListener(P.core.GoingDownEvent, lambda e: log.append("GoingDown"))
+  core.addListener(P.core.DownEvent, lambda e: log.append("Down"))
+  def body ():
+    core.quit()
+    st["done"] += 1
+  S.spawn(body, name="Q0"); S.spawn(body, name="Q1")
+  try:
+    leaked = S.run(first=0)
+  finally:
+    P.core.time = real_time
+  v = S.verdict
+  bad = None
+  if v: bad = ("quit-race:" + v[0], v[1])
+  elif log != ["GoingDown", "Down"]:
+    bad = ("quit-race:lifecycle-events", "two threads called quit() concurrently: life-cycle events raised %r, expected exactly ['GoingDown', 'Down']" % (log,))
+  return bad, tuple(log)
+
+
+def quit_race_part (cfg, rep):
+  import gc
+  gc.disable()
+  try:
+    n = [0]
+    def on_exec (ctx, res):
+      bad, out = res
+      rep.evaluations += 1; rep.transitions += len(ctx.trace)
+      rep.outcome(("quit-race", bad and bad[0], out))
+      n[0] += 1
+      if n[0] % 200 == 0: gc.collect()
+      if bad:
+        rep.violation("%s:%s" % (PID, bad[0]), bad[1], dict(quit_race=True, choices=ctx.choices()))
+    explore(quit_race_run, dev_bound=cfg.pick(2, 3), on_exec=on_exec)
+  finally:
+    gc.collect(); gc.enable()
+
+
 def run (cfg):
   P = _import()
   rep = Report(PID, "model_checking")
@@ -691,6 +797,8 @@ def run (cfg):
   for prm in prms:
     levels = bfs(cfg, prm, rep)
     rep.extra["new_states_per_level"].append(levels)
+  collision_part(rep)
+  quit_race_part(cfg, rep)
   return rep
 
 
@@ -723,6 +831,17 @@ def bfs (cfg, prm, rep):
 
 def replay (cfg, data):
   P = _import()
+  if "quit_race" in data:
+    import gc
+    gc.disable()
+    try: bad, out = quit_race_run(Ctx(list(data["choices"])))
+    finally: gc.enable()
+    return bool(bad), "two threads call quit(): events %r => %r" % (out, bad)
+  if "collision" in data:
+    r = Report(PID, "model_checking"); collision_part(r)
+    c = data["collision"]
+    hits = [v for k, v in r.violations.items()]
+    return bool(hits), "component name colliding with a core attribute: %r\n%s" % (c, "\n".join(v["what"] for v in hits))
   prm = data["prm"]
   w = make_run(P, prm, 1 << 20)(Ctx(list(data["choices"])))
   text = "\n".join(w.render()) + "\n=> %r" % (w.violated,)
